@@ -117,7 +117,9 @@ static bytes exchange(int k, const bytes& req, const char* prop = "C01") {
     std::size_t out_size = cap;
     g_current_conn = k;
     g_cb_requested_chr = -1;
+    verif::arm_hang_timer(20);
     g_srv->l2cap_input(in.data(), req.size(), out.data(), out_size, *g_conn[k]);
+    verif::disarm_hang_timer();
     bytes rsp;
     if (out_size > cap) {
         verif::violation("C01", "C01:framing:out_size_larger_than_buffer", "decl=" + std::string(decl::declaration_name) + " req=" + verif::hex(req) + " out_size=" + std::to_string(out_size), g_step);
@@ -152,7 +154,9 @@ static void poll(int k) {
     verif::exact_buffer out(cap);
     std::size_t out_size = cap;
     g_current_conn = k;
+    verif::arm_hang_timer(20);
     g_srv->l2cap_output(out.data(), out_size, *g_conn[k]);
+    verif::disarm_hang_timer();
     const std::string where = "decl=" + std::string(decl::declaration_name) + " conn=" + std::to_string(k) + " mtu=" + std::to_string(c.mtu());
     if (out_size > cap) { verif::violation("C01", "C01:framing:out_size_larger_than_buffer", where + " l2cap_output out_size=" + std::to_string(out_size), g_step); out_size = cap; }
     const bytes pdu(out.data(), out.data() + out_size);
